@@ -215,6 +215,8 @@ pub struct GenCfg {
   pub max_modules: usize,
   pub redirects: bool,
   pub faults: bool,
+  /// all imports of one target use the same `type` attribute
+  pub same_attr_proviso: bool,
 }
 
 const EXTS: &[&str] = &["ts", "ts", "ts", "js", "js", "tsx", "jsx", "d.ts", "mjs", "mts", "json"];
@@ -237,6 +239,28 @@ fn text_for(rng: &mut Rng, from: &str, to: &str) -> String {
   } else {
     to.to_string()
   }
+}
+
+/// Under the same-attribute proviso: targets whose imports all carry `type: "json"`.
+/// A function of the target only (most .json files, and a few others).
+pub fn attr_json_target(to: &str) -> bool {
+  // only real modules m<k>.<ext>: redirecting / missing / external extras are requested without attribute
+  let name = to.rsplit('/').next().unwrap_or("");
+  if !name.starts_with('m') {
+    return false;
+  }
+  let h: u32 = to.bytes().fold(7u32, |a, b| a.wrapping_mul(31).wrapping_add(b as u32));
+  if to.ends_with(".json") { h % 5 != 0 } else { h % 23 == 0 }
+}
+
+fn pick_plain(rng: &mut Rng, all: &[String]) -> String {
+  for _ in 0..20 {
+    let y = rng.pick(all).clone();
+    if !attr_json_target(&y) {
+      return y;
+    }
+  }
+  "https://h.test/nowhere.ts".to_string()
 }
 
 pub fn gen_world(rng: &mut Rng, cfg: &GenCfg) -> (World, Vec<String>) {
@@ -276,6 +300,35 @@ pub fn gen_world(rng: &mut Rng, cfg: &GenCfg) -> (World, Vec<String>) {
     let n_imp = if rng.chance(20) { 0 } else { rng.range(1, 4) };
     for _ in 0..n_imp {
       let to = rng.pick(&all_targets).clone();
+      if cfg.same_attr_proviso {
+        // the attribute used for a target is a function of the target
+        let json_attr = attr_json_target(&to);
+        let mut text = text_for(rng, s, &to);
+        if text.starts_with("FILE://") {
+          text = to.clone();
+        }
+        let form = if json_attr {
+          if rng.chance(70) { Form::JsonAttr } else { Form::DynJsonAttr }
+        } else {
+          match rng.below(100) {
+            0..=29 => Form::Static,
+            30..=39 => Form::Named,
+            40..=57 => Form::TypeOnly,
+            58..=75 => Form::Dynamic,
+            76..=80 => Form::ExportStar,
+            81..=84 => Form::ExportType,
+            85..=89 => {
+              let y = pick_plain(rng, &all_targets);
+              Form::DenoTypes(text_for(rng, s, &y))
+            }
+            90..=93 => Form::RefTypes,
+            94..=95 => Form::RefPath,
+            _ => Form::ImportType,
+          }
+        };
+        src.imports.push(Imp { form, text });
+        continue;
+      }
       let mut text = text_for(rng, s, &to);
       if rng.chance(4) {
         text = "bare-spec".to_string(); // resolution error without a resolver
@@ -301,7 +354,7 @@ pub fn gen_world(rng: &mut Rng, cfg: &GenCfg) -> (World, Vec<String>) {
       src.imports.push(Imp { form, text });
     }
     if is_js && rng.chance(25) {
-      let y = rng.pick(&all_targets).clone();
+      let y = if cfg.same_attr_proviso { pick_plain(rng, &all_targets) } else { rng.pick(&all_targets).clone() };
       src.self_types = Some(text_for(rng, s, &y));
     }
     if cfg.faults && rng.chance(5) {
@@ -311,7 +364,7 @@ pub fn gen_world(rng: &mut Rng, cfg: &GenCfg) -> (World, Vec<String>) {
     if !s.starts_with("file:") {
       let mut h = vec![];
       if is_js && rng.chance(20) {
-        let y = rng.pick(&all_targets).clone();
+        let y = if cfg.same_attr_proviso { pick_plain(rng, &all_targets) } else { rng.pick(&all_targets).clone() };
         h.push(("x-typescript-types".to_string(), text_for(rng, s, &y)));
       }
       if rng.chance(15) {
@@ -334,7 +387,11 @@ pub fn gen_world(rng: &mut Rng, cfg: &GenCfg) -> (World, Vec<String>) {
     let e = match rng.below(100) {
       0..=39 if cfg.redirects => {
         // redirect to a module or another extra (chains and cycles arise)
-        let to = if rng.chance(70) { rng.pick(&specs).clone() } else { rng.pick(&extra).clone() };
+        let to = if rng.chance(70) {
+          if cfg.same_attr_proviso { pick_plain(rng, &specs) } else { rng.pick(&specs).clone() }
+        } else {
+          rng.pick(&extra).clone()
+        };
         Entry::Redirect(to)
       }
       0..=59 => Entry::Missing,
